@@ -213,7 +213,7 @@ func runC03(c *Ctx) {
 	m := resolveGensign(w)
 	for _, h := range m.Handlers {
 		pkgPath := strings.TrimPrefix(h.Obj().Pkg().Path(), RepoMod+"/")
-		for _, fn := range w.methodsOf(pkgPath, h.Obj().Name()) {
+		for _, fn := range w.FuncsOfPkg(pkgPath) {
 			for _, b := range fn.Blocks {
 				for _, ins := range b.Instrs {
 					s, ok := ins.(*ssa.Store)
@@ -241,7 +241,31 @@ func runC03(c *Ctx) {
 									}
 								}
 							}
-							if cv, isConv := pair[0].(*ssa.Convert); isConv && isK && k >= 0 && strings.HasSuffix(w.Expr(cv.X), ".CertValiditySec") && strings.HasPrefix(w.Expr(cv.X), "p0.") {
+							fromConf := func(v ssa.Value) bool {
+								ex := w.ExprIn(fn, v)
+								if strings.HasSuffix(ex, ".CertValiditySec") && strings.HasPrefix(ex, "p0.") {
+									return true
+								}
+								// handed in by the handler method that builds the options: every call passes the configured validity
+								p, isParam := v.(*ssa.Parameter)
+								sites := w.callSites(fn)
+								if !isParam || len(sites) == 0 {
+									return false
+								}
+								for _, st := range sites {
+									a := st.Common().Args
+									i := paramIndex(p)
+									if i < 0 || i >= len(a) {
+										return false
+									}
+									ax := w.ExprIn(st.Parent(), a[i])
+									if !(strings.HasSuffix(ax, ".CertValiditySec") && strings.HasPrefix(ax, "p0.")) {
+										return false
+									}
+								}
+								return true
+							}
+							if cv, isConv := pair[0].(*ssa.Convert); isConv && isK && k >= 0 && fromConf(cv.X) {
 								okForm = true
 								detail = "validity + " + itoa(int(k))
 							}
@@ -374,7 +398,7 @@ func runC03(c *Ctx) {
 		}
 		var filterFn *ssa.Function
 		label := ""
-		for _, fn := range w.methodsOf(pkgPath, h.Obj().Name()) {
+		for _, fn := range w.FuncsOfPkg(pkgPath) {
 			for _, b := range fn.Blocks {
 				for _, ins := range b.Instrs {
 					s, ok := ins.(*ssa.Store)
@@ -384,6 +408,9 @@ func runC03(c *Ctx) {
 					fa, ok := s.Addr.(*ssa.FieldAddr)
 					if !ok {
 						continue
+					}
+					if T := derefNamedT(fa.X.Type()); T == nil || T.Obj().Pkg() == nil || !strings.HasSuffix(T.Obj().Pkg().Path(), "agent/ssh") {
+						continue // not the agent-key options
 					}
 					switch fieldName(fa.X.Type(), fa.Field) {
 					case "KeyRefreshFilter":
